@@ -23,14 +23,15 @@ def mc_configs(ctx):
         return [("one-open-no-auto", nu.mc_consts(mo=1, mcl=0, cut=0)),
                 ("one-open-autoXY-cut", nu.mc_consts(auto=("X", "Y"), mo=1, mcl=0, cut=1, rec=0)),
                 ("one-open-autoX-openfail", nu.mc_consts(auto=("X",), mo=1, mcl=0, fail=1)),
-                ("pending-validation-2cuts-2reconnects", nu.mc_consts(mo=1, moy=0, mcl=0, cut=2, rec=2))]
+                ("pending-validation-2cuts-2reconnects", nu.mc_consts(mo=1, moy=0, mcl=0, cut=2, rec=2)),
+                ("retry-after-failure", nu.mc_consts(mo=2, moy=0, mcl=0))]
     return [("open-close", nu.mc_consts(mo=1, mcl=1)),
             ("cut-reconnect", nu.mc_consts(mo=1, mcl=0, cut=1, rec=1, sub=4)),
             ("open-fail-autoXY", nu.mc_consts(auto=("X", "Y"), mo=1, mcl=0, fail=1)),
             ("autoXY-cut", nu.mc_consts(auto=("X", "Y"), mo=1, mcl=0, cut=1)),
             ("autoX-openfail", nu.mc_consts(auto=("X",), mo=1, mcl=0, fail=1)),
             ("pending-validation-2cuts-2reconnects", nu.mc_consts(mo=1, moy=0, mcl=0, cut=2, rec=2)),
-            ("two-opens-2cuts-2reconnects", nu.mc_consts(mo=2, moy=0, mcl=0, cut=2, rec=2))]
+            ("retry-after-failure", nu.mc_consts(mo=2, moy=0, mcl=0))]
 
 
 def model_check(ctx):
